@@ -552,7 +552,47 @@ def case_M(draw):
             ops.append({"kw": draw(st.sampled_from(["EQUALS", "ADD", "MINVALUE", "MAXVALUE"])), "arr": arr,
                         "u": _lin(draw, 1, 2000), "k": k})
     m["ops"] = ops
+    # lift tables: every axis kind has its own unit (rates, ratios liquid/liquid, liquid/gas, gas/liquid), chosen by an
+    # enum literal of the header record
+    if draw(st.booleans()):
+        v = {"flo": draw(st.sampled_from(["OIL", "LIQ", "GAS"])), "wfr": draw(st.sampled_from(["WOR", "WCT", "WGR"])),
+             "gfr": draw(st.sampled_from(["GOR", "GLR", "OGR"])), "alq": draw(st.sampled_from(["GRAT", "IGLR", "TGLR", " ", "1*"])),
+             "units": draw(st.booleans()), "datum": _lin(draw, 1000, 3000)}
+        nf, nt, nw, ng, na = (draw(st.integers(1, 3)), draw(st.integers(1, 2)), draw(st.integers(1, 2)),
+                              draw(st.integers(1, 2)), draw(st.integers(1, 2)))
+        def axis(k, lo, hi):
+            a = sorted(_lin(draw, lo, hi) for _ in range(k))
+            return [x + 1e-3 * (hi - lo) * j for j, x in enumerate(a)]          # strictly increasing
+        v["flo_axis"] = axis(nf, 10, 5000) if v["flo"] != "GAS" else axis(nf, 1000, 500000)
+        v["thp_axis"] = axis(nt, 5, 100)
+        v["wfr_axis"] = axis(nw, 0.0, 0.9) if v["wfr"] != "WGR" else axis(nw, 1e-5, 1e-3)
+        v["gfr_axis"] = axis(ng, 10, 500) if v["gfr"] != "OGR" else axis(ng, 1e-5, 1e-3)
+        v["alq_axis"] = axis(na, 100, 10000)
+        v["bhp"] = [[_lin(draw, 50, 400) for _ in range(nf)] for _ in range(nt * nw * ng * na)]
+        m["VFPPROD"] = v
+    if draw(st.integers(0, 2)) == 0:
+        v = {"flo": draw(st.sampled_from(["OIL", "WAT", "GAS"])), "units": draw(st.booleans()), "datum": _lin(draw, 1000, 3000)}
+        nf, nt = draw(st.integers(1, 3)), draw(st.integers(1, 2))
+        a = sorted(_lin(draw, 10, 5000) for _ in range(nf))
+        v["flo_axis"] = [(x + 5.0 * j) * (100.0 if v["flo"] == "GAS" else 1.0) for j, x in enumerate(a)]
+        a = sorted(_lin(draw, 5, 100) for _ in range(nt))
+        v["thp_axis"] = [x + 0.1 * j for j, x in enumerate(a)]
+        v["bhp"] = [[_lin(draw, 50, 400) for _ in range(nf)] for _ in range(nt)]
+        m["VFPINJ"] = v
     return m
+
+
+GAS_LIQ, LIQ_GAS = "GasSurfaceVolume/LiquidSurfaceVolume", "LiquidSurfaceVolume/GasSurfaceVolume"
+
+
+def vfp_dims(v):
+    """dimension of every axis of a lift table, from the enum literals of its header"""
+    d = {"flo": GRATE if v["flo"] == "GAS" else LRATE, "thp": P, "bhp": P, "datum": L}
+    if "wfr" in v:
+        d["wfr"] = LIQ_GAS if v["wfr"] == "WGR" else "1"
+        d["gfr"] = LIQ_GAS if v["gfr"] == "OGR" else GAS_LIQ
+        d["alq"] = {"GRAT": GRATE, "IGLR": GAS_LIQ, "TGLR": GAS_LIQ}.get(v["alq"], "1")
+    return d
 
 
 def si_of(u, d):
@@ -607,6 +647,32 @@ def render_model(m, s):
     t += "WCONINJE\n I1 WATER OPEN RATE %s %s %s /\n/\n" % (c(i["rate"], LRATE), c(i["resv"], RRATE), c(i["bhp"], P))
     g = m["G1"]
     t += "GCONPROD\n G1 ORAT %s %s %s %s /\n/\n" % (c(g[0], LRATE), c(g[1], LRATE), c(g[2], GRATE), c(g[3], LRATE))
+    # (the explicit UNITS item only where the library accepts it: it refuses 'PVT-M' and reads 'LAB' as FIELD, which then
+    # "differs from the deck's units" - clean refusals, not conversions)
+    unit_item = {"METRIC": "'METRIC'", "FIELD": "'FIELD'", "LAB": "1*", "PVT-M": "1*"}[s]
+    v = m.get("VFPPROD")
+    if v:
+        d = vfp_dims(v)
+        alq = "1*" if v["alq"] == "1*" else "'%s'" % v["alq"]
+        t += "VFPPROD\n 3 %s '%s' '%s' '%s' 'THP' %s %s 'BHP' /\n" % (c(v["datum"], L), v["flo"], v["wfr"], v["gfr"], alq,
+                                                                         unit_item if v["units"] else "1*")
+        for ax in ("flo", "thp", "wfr", "gfr", "alq"):
+            t += " %s /\n" % " ".join(c(u, d[ax]) for u in v[ax + "_axis"])
+        nt, nw, ng, na = (len(v[a + "_axis"]) for a in ("thp", "wfr", "gfr", "alq"))
+        r_ = 0
+        for a_ in range(na):
+            for g_ in range(ng):
+                for w_ in range(nw):
+                    for t_ in range(nt):
+                        t += " %d %d %d %d %s /\n" % (t_ + 1, w_ + 1, g_ + 1, a_ + 1, " ".join(c(u, P) for u in v["bhp"][r_]))
+                        r_ += 1
+    v = m.get("VFPINJ")
+    if v:
+        d = vfp_dims(v)
+        t += "VFPINJ\n 4 %s '%s' 'THP' %s 'BHP' /\n" % (c(v["datum"], L), v["flo"], unit_item if v["units"] else "1*")
+        t += " %s /\n %s /\n" % (" ".join(c(u, d["flo"]) for u in v["flo_axis"]), " ".join(c(u, P) for u in v["thp_axis"]))
+        for t_, row in enumerate(v["bhp"]):
+            t += " %d %s /\n" % (t_ + 1, " ".join(c(u, P) for u in row))
     rs = p.get("respec")
     if rs:
         rec = "WELSPECS\n %s G1 %d %d %s OIL %s /\n/\n" % (rs["name"], p["ij"][0], p["ij"][1], c(rs["ref"], L), c(rs["drad"], L))
@@ -1420,6 +1486,26 @@ class C02(Check):
                       si_of(m["G1"][3], LRATE)]))
             if r:
                 return r
+            for kw in ("VFPPROD", "VFPINJ"):
+                v = m.get(kw)
+                if not v:
+                    continue
+                ctx.label("M:" + kw)
+                got = steps[0].get(kw.lower())
+                if not got:
+                    return V("M: %s table missing from the schedule state" % kw, {"system": s, "deck": text})
+                d = vfp_dims(v)
+                r = bad(kw + " datum depth", [got["datum"]], [si_of(v["datum"], L)])
+                for ax in (("flo", "thp", "wfr", "gfr", "alq") if kw == "VFPPROD" else ("flo", "thp")):
+                    r = r or bad("%s %s axis (%s)" % (kw, ax.upper(), v.get(ax, "THP")), got[ax], [si_of(u, d[ax]) for u in v[ax + "_axis"]])
+                if r:
+                    return r
+                # table values in the library's storage order vs mine: compared as sorted lists (the layout of the
+                # table is not a unit question) and entry by entry through the first row
+                want = sorted(si_of(u, P) for row in v["bhp"] for u in row)
+                r = bad(kw + " BHP values (sorted)", sorted(got["bhp"], key=hexf), want)
+                if r:
+                    return r
             c0 = w["P1"]["conns"][0]
             r = bad("P1 connection 1 (CF Kh rw)", c0[:3],
                     [si_of(p["cf"], TRANS), si_of(p["kh"], "Permeability*Length"), si_of(p["diam"], L) / 2])
